@@ -23,7 +23,7 @@ import stepsize_gen as G
 from common import ModelErr, b2f, f2b
 
 PROP = "C16"
-CLAIMED = False
+CLAIMED = True
 ENGINE = "StepSize"
 DESIGN_REF = "DESIGN.md §5.10"
 TECHNIQUE = (
